@@ -97,7 +97,7 @@ def body(case, rec, tol=1e-7):
     if pairs.close_disjoint_excluded(info, sc):
         rec.exclude('short_panel_close_to_much_longer_one')
         return
-    exact = bool(case.get('exact')) and not g.circle
+    exact = bool(case.get('exact')) and g.polygon
     label = '%s|%s|%s' % (sc, tc, 'near' if near else 'far')
     cj = dict(case)
     cj['_pair'] = {'test': [tt, tx], 'trial': [st_, sx], 'class': label}
@@ -140,7 +140,7 @@ def body(case, rec, tol=1e-7):
     if ref > 1e-6 * D:
         rec.nontriv([cname, case['spec'].get('xs'), case['spec']['ts'], tt, tx, st_, sx, exact])
     if err > tol:
-        rec.violation('C01/%s/%s/%s/%s' % ('exact' if exact else 'quad', sc, tc, 'circle' if g.circle else 'polygon'),
+        rec.violation('C01/%s/%s/%s/%s' % ('exact' if exact else 'quad', sc, tc, 'circle' if g.circle else ('polygon' if g.polygon else 'line_arc')),
                       {'value': val, 'reference': ref, 'err_over_sqrtDD': err, 'class': label, 'ratio': info['ratio'],
                        'curve': cname}, cj)
         return
@@ -195,9 +195,9 @@ def cases():
     ex = st.booleans()
     causal = [c for c in pairs.TIME_CLASSES if not c.startswith('acausal')] * 3 + ['acausal_touch']
     wm = st.integers(0, 23)
-    tg = st.builds(lambda c, e, w: dict(c, exact=e, warm=w), pairs.target_cases(time_classes=causal), ex, wm)
-    hi = st.builds(lambda c, e, w: dict(c, exact=e, warm=w), pairs.history_cases(), ex, wm)
-    pc = st.builds(lambda c, e, w: dict(c, exact=e, warm=w), pairs.piece_cases(), ex, wm)
+    tg = st.builds(lambda c, e, w: dict(c, exact=e, warm=w), pairs.target_cases(time_classes=causal, curves=pairs.WITH_MIXED), ex, wm)
+    hi = st.builds(lambda c, e, w: dict(c, exact=e, warm=w), pairs.history_cases(curves=pairs.WITH_MIXED), ex, wm)
+    pc = st.builds(lambda c, e, w: dict(c, exact=e, warm=w), pairs.piece_cases(curves=pairs.WITH_MIXED), ex, wm)
     return st.one_of(tg, tg, tg, hi, pc)
 
 
